@@ -325,7 +325,18 @@ impl Gen {
             }
         };
         let connack = if rng.chance(p.bad_connack_pct, 100) {
-            match rng.below(6) {
+            match rng.below(8) {
+                // reason 0 but properties the client must refuse: the fresh/resumed answer has
+                // already been given when the handshake fails
+                6 | 7 => ConnackSpec::Normal {
+                    sp: if clean_start { SpMode::Force(false) } else { sp.clone() },
+                    reason: 0,
+                    props: vec![match rng.below(3) {
+                        0 => Prop::ReceiveMaximum(0),
+                        1 => Prop::MaximumQoS(3),
+                        _ => Prop::AssignedClientId("x".repeat(70)),
+                    }],
+                },
                 0 => ConnackSpec::Normal { sp: SpMode::Force(false), reason: *rng.pick(&[0x80u8, 0x85, 0x87, 0x88, 0x89, 0x9F]), props: vec![] },
                 1 => ConnackSpec::Raw({ let n = rng.range(1, 12); rng.bytes(n) }),
                 2 => ConnackSpec::Disconnect(*rng.pick(&[0x80u8, 0x89, 0x8B, 0x9C])),
@@ -523,6 +534,14 @@ impl Gen {
     }
 
     fn live_step(&mut self, v: &View<'_>) -> Step {
+        // an application that gave up on a disconnect() usually lets go of the handle next
+        if v.log.ops.last().is_some_and(|o| o.kind == "disconnect" && o.outcome == crate::exec::Outcome::Cancelled) && self.rng.chance(1, 2) {
+            return match self.rng.below(3) {
+                0 => Step::ForgetConn,
+                1 => Step::IntoInner,
+                _ => Step::DropConn,
+            };
+        }
         let p = self.p.clone();
         let cur = v.world.conns.last().unwrap();
         let held = cur.held.len();
